@@ -41,6 +41,14 @@ THEOREMS = [
     'Nb.C02.mgh_clips_known_finding',
     'Nb.C02.iu2iu_exact',
     'Nb.C02.Gen.shared_table_ok',       # over the table REGENERATED from /repo by regen()
+    'Nb.C02.to_file_map_eq_save',
+    'Nb.C02.to_file_map_indep_of_header_dtype',
+    'Nb.C02.to_file_map_restores_header',
+    'Nb.C02.save_history_independent',
+    'Nb.C02.no_wrap_to_file_map',
+    'Nb.C02.refusal_dtype_arg',
+    'Nb.C02.make_writer_of_caps',
+    'Nb.C02.Gen.caps_table_ok',         # over the capability flags REGENERATED from /repo by regen()
 ]
 ASSUMPTIONS = [
     'hand-written Lean model of arraywriters / array_to_file / shared_range / header refusals (Model/C02.lean) in exact '
@@ -98,6 +106,31 @@ CLS_OUT = {
     'mgh': ['uint8', 'int16', 'int32'],
 }
 CLS_WRITER = {'nifti': 'slopeinter', 'spm': 'slope', 'spm2': 'slope', 'analyze': 'plain', 'mgh': 'mgh'}
+# image classes behind each model class (the Analyze family shares AnalyzeImage.to_file_map)
+KLS = {'nifti': ['Nifti1Image', 'Nifti1Pair', 'Nifti2Image', 'Nifti2Pair'], 'spm': ['Spm99AnalyzeImage'],
+       'spm2': ['Spm2AnalyzeImage'], 'analyze': ['AnalyzeImage']}
+SINGLE_FILE = ('Nifti1Image', 'Nifti2Image')
+KLS_EXT = {'Nifti1Image': ['.nii', '.nii.gz'], 'Nifti2Image': ['.nii', '.nii.gz'], 'Nifti1Pair': ['.img', '.hdr'],
+           'Nifti2Pair': ['.img'], 'Spm99AnalyzeImage': ['.img'], 'Spm2AnalyzeImage': ['.img', '.img.gz'],
+           'AnalyzeImage': ['.img', '.hdr']}
+HDR_TYPES = INT_TYPES + ['float32', 'float64']
+_SUPPORTED = {}
+
+
+def supported_dtypes(kls):
+    """the data types the header class of image class `kls` accepts NOW (read from the working tree)"""
+    if kls not in _SUPPORTED:
+        import nibabel as nib
+        hc = getattr(nib, kls).header_class
+        ok = []
+        for t in HDR_TYPES:
+            try:
+                hc().set_data_dtype(np.dtype(t))
+                ok.append(t)
+            except Exception:
+                pass
+        _SUPPORTED[kls] = ok
+    return _SUPPORTED[kls]
 
 
 class HarnessError(Exception):
@@ -307,6 +340,46 @@ def mk_save(cls, in_name, out_name, valstrs, stream, exact, shape=None, order='C
     return Case(line, data, key, stream)
 
 
+def dt_token(name):
+    return in_token(name)[1:] if name not in FPREC else in_token(name)
+
+
+def opt_fr(x):
+    return '_' if x is None else fr_str(Fr(x))
+
+
+def mk_tfm(cls, kls, in_name, hd, sl, it, args, valstrs, stream, exact, how='tfm', mk='hdr', bo='<', ext=None,
+           shape=None, order='C'):
+    """`img.to_file_map(dtype=arg)` HISTORY on one image of class `kls` (model class `cls`): the image is built the way
+    `mk` says with header data type `hd` (a dtype name) and preset header slope / inter `sl` / `it` (None = NaN, the
+    normal state), then saved once per element of `args` (None = no dtype argument, else the `dtype=` argument); the
+    LAST save is the observed one and is made through API `how`.  Its on-disk type must be an integer type."""
+    out_name = args[-1] or hd
+    if out_name in FPREC:
+        raise HarnessError('observed save must have an integer on-disk type')
+    vals = [parse_val(v, in_name) for v in valstrs]
+    lcls = 'spm' if cls == 'spm2' else cls
+    preset = sl is not None or it is not None
+    lvl = None
+    if exact or preset:
+        lvl = 'full'
+    elif stream != 'tfm-noline' and var_eligible(cls, in_name, out_name, vals):
+        lvl = 'dec'
+    line = None
+    if lvl:
+        line = (f'C02 {"tfm" if lvl == "full" else "tfmd"} {lcls} {in_token(in_name)} {dt_token(hd)} {opt_fr(sl)} {opt_fr(it)} '
+                + ';'.join('_' if a is None else dt_token(a) for a in args) + ' ' + line_vals(vals))
+    data = {'op': 'tfm', 'cls': cls, 'kls': kls, 'in': in_name, 'hd': hd, 'sl': None if sl is None else fr_str(Fr(sl)),
+            'it': None if it is None else fr_str(Fr(it)), 'args': list(args), 'out': out_name, 'vals': list(valstrs),
+            'how': how, 'mk': mk, 'bo': bo, 'ext': ext, 'stream': stream, 'exact': bool(exact), 'lvl': lvl}
+    if shape is not None:
+        data['shape'], data['order'] = list(shape), order
+    need = preset or scaling_needed(in_name, out_name, vals)
+    key = (('tfm', cls, kls, in_name, hd, data['sl'], data['it'], tuple(args), how, mk, bo, tuple(valstrs),
+            tuple(shape or ()), order) if need else None)
+    return Case(line, data, key, stream)
+
+
 def mk_fr(in_name, valstrs, shape=None, order='C'):
     """finite_range itself (volumeutils.finite_range(arr, check_nan=True)) against the model's finiteRange"""
     vals = [parse_val(s, in_name) for s in valstrs]
@@ -340,6 +413,11 @@ def case_from_data(d):
         st = d.get('stream', 'corpus')
         return mk_save(d['cls'], d['in'], d['out'], d['vals'], 'general' if d['op'] == 'var' else st, d.get('exact', False),
                        d.get('shape'), d.get('order', 'C'))
+    if d['op'] == 'tfm':
+        return mk_tfm(d['cls'], d['kls'], d['in'], d['hd'], None if d['sl'] is None else Fr(d['sl']),
+                      None if d['it'] is None else Fr(d['it']), d['args'], d['vals'], d.get('stream', 'corpus'),
+                      d.get('exact', False), d.get('how', 'tfm'), d.get('mk', 'hdr'), d.get('bo', '<'), d.get('ext'),
+                      d.get('shape'), d.get('order', 'C'))
     if d['op'] == 'fr':
         return mk_fr(d['in'], d['vals'], d.get('shape'), d.get('order', 'C'))
     if d['op'] == 'a2f':
@@ -434,6 +512,129 @@ def run_save(d, case):
     return (f'ok {fr_str(Fr(s))} {fr_str(Fr(b))} [' + ','.join(str(int(q)) for q in raw) + ']' + cast_warning(wl))
 
 
+def _bytes_map(klass):
+    fm = klass.make_file_map()
+    for k in fm:
+        fm[k].fileobj = io.BytesIO()
+    return fm
+
+
+def build_image(d, klass, data):
+    """the image the case describes (construction route `mk`, header dtype `hd`, byte order `bo`, preset slope/inter)"""
+    hd = np.dtype(d['hd'])
+    mk = d.get('mk', 'hdr')
+    if mk in ('fresh', 'loaded'):
+        if np.dtype(d['in']) != hd:
+            raise HarnessError('fresh / loaded images have the array dtype in the header')
+        img = klass(data, np.eye(4))
+        if mk == 'loaded':                       # array proxy over a file written with the array's own dtype
+            fm0 = _bytes_map(klass)
+            img.to_file_map(fm0)
+            img = klass.from_file_map(fm0)
+    elif mk == 'ctor':
+        img = klass(data, np.eye(4), dtype=hd)
+    elif mk == 'set':
+        hdr = klass.header_class()
+        other = [t for t in supported_dtypes(d['kls']) if t != d['hd']]
+        hdr.set_data_dtype(np.dtype(other[len(d['vals']) % len(other)]))
+        img = klass(data, np.eye(4), hdr)
+        img.set_data_dtype(hd)
+    else:
+        hdr = klass.header_class(endianness=d.get('bo', '<')) if d.get('bo', '<') == '>' else klass.header_class()
+        hdr.set_data_dtype(hd)
+        img = klass(data, np.eye(4), hdr)
+    if img.get_data_dtype().newbyteorder('=') != hd:
+        raise HarnessError(f'image header dtype {img.get_data_dtype()} is not {hd}')
+    if d['sl'] is not None or d['it'] is not None:
+        if d['it'] is None:
+            img.header.set_slope_inter(float(Fr(d['sl'])))
+        else:
+            img.header.set_slope_inter(float(Fr(d['sl'])), float(Fr(d['it'])))
+    return img
+
+
+def header_state(img):
+    hdr = img.header
+    dt = img.get_data_dtype()
+    tok = dt_token(np.dtype(dt).newbyteorder('=').name) if not isinstance(dt, str) else 'alias:' + dt
+
+    def fld(has, name):
+        if not has:
+            return '_'
+        x = float(hdr[name])
+        return '_' if math.isnan(x) else fr_str(Fr(x))
+    return f'H {tok} {fld(hdr.has_data_slope, "scl_slope")} {fld(hdr.has_data_intercept, "scl_inter")}'
+
+
+def run_tfm(d, case):
+    import tempfile
+    import nibabel as nib
+    klass = getattr(nib, d['kls'])
+    data = laid_out(d)
+    with warnings.catch_warnings():
+        warnings.simplefilter('ignore')
+        img = build_image(d, klass, data)
+        for a in d['args'][:-1]:                      # earlier saves of the history: outcome not observed
+            try:
+                img.to_file_map(_bytes_map(klass), **({} if a is None else {'dtype': np.dtype(a)}))
+            except Exception:
+                pass
+    a = d['args'][-1]
+    kw = {} if a is None else {'dtype': np.dtype(a) if len(d['vals']) % 2 else a}    # dtype object / dtype name
+    how = d.get('how', 'tfm')
+    with tempfile.TemporaryDirectory() if how in ('fn', 'nibsave', 'conv') else io.BytesIO() as tmp, \
+            warnings.catch_warnings(record=True) as wl:
+        warnings.simplefilter('always')
+        try:
+            if how == 'tfm':
+                fm = _bytes_map(klass)
+                img.to_file_map(fm, **kw)
+                back = klass.from_file_map(fm)
+            elif how == 'bytes':
+                back = klass.from_bytes(img.to_bytes(**kw))
+            elif how == 'stream':
+                bio = io.BytesIO()
+                img.to_stream(bio, **kw)
+                bio.seek(0)
+                back = klass.from_stream(bio)
+            else:
+                ext = d.get('ext') or KLS_EXT[d['kls']][0]
+                if how == 'conv':                   # nib.save converts the image to the class the extension asks for
+                    ext = '.img' if d['kls'] in SINGLE_FILE else '.nii'
+                path = os.path.join(tmp, 'c02' + ext)
+                if how == 'fn':
+                    img.to_filename(path, **kw)
+                else:
+                    nib.save(img, path, **kw)
+                back = nib.load(path) if how != 'fn' else klass.from_filename(path)
+        except Exception as e:
+            return canon_err(e) + ' ' + header_state(img)
+        raw = unravel(back.dataobj.get_unscaled(), d)
+        reloaded = unravel(back.dataobj, d)
+        s, b = float(back.dataobj.slope), float(back.dataobj.inter)
+    hs = header_state(img)
+    if raw.dtype.newbyteorder('=') != np.dtype(d['out']):
+        return 'ERR:on-disk-dtype-' + raw.dtype.name + ' ' + hs
+    if not (math.isfinite(s) and math.isfinite(b)):
+        return f'ERR:nonfinite-scaling-{s}-{b} ' + hs
+    if case is not None:
+        case.extra = {'reloaded': reloaded}
+    return (f'ok {fr_str(Fr(s))} {fr_str(Fr(b))} [' + ','.join(str(int(q)) for q in raw) + ']' + cast_warning(wl)
+            + ' ' + hs)
+
+
+def split_h(out):
+    res, sep, h = out.partition(' H ')
+    return res, (sep + h).strip()
+
+
+def run_any(d, case):
+    """result line `ok s b [raw]` / `ERR:…` of a save-like case (without the header tail)"""
+    if d['op'] == 'tfm':
+        return split_h(run_tfm(d, case))[0]
+    return run_save(d, case)
+
+
 def cast_warning(wl):
     """' W:invalid-cast' when NumPy warned about an undefined float -> int cast of DATA being written
     (volumeutils._write_data / array_to_file).  The same warning raised by the writer's nan-fill representability
@@ -483,6 +684,18 @@ def impl(case):
             s, b, _, _ = parse_ok(out)
             return f'ok {1 if s == 1 else 0} {1 if b == 0 else 0} {"+" if s > 0 else "-"}'
         return out.split(' ')[0] if out.startswith('ERR') else out
+    if d['op'] == 'tfm':
+        out = run_tfm(d, case)
+        if d.get('lvl') == 'dec':
+            res, h = split_h(out)
+            case.extra = dict(case.extra or {}, full=res)
+            if res.startswith('ok ') and ' W:' not in res:
+                s, b, _, _ = parse_ok(res)
+                res = f'ok {1 if s == 1 else 0} {1 if b == 0 else 0} {"+" if s > 0 else "-"}'
+            elif res.startswith('ERR'):
+                res = res.split(' ')[0]
+            return res + ' ' + h
+        return out
     if d['op'] == 'a2f':
         return run_a2f(d)
     from nibabel import casting
@@ -682,8 +895,56 @@ def oracle_a2f(case, out):
     return None
 
 
+def oracle_preset(case, res):
+    """caller-fixed scaling (slope / inter preset in the header): nibabel writes the array AS IT IS (documented), so the
+    half-step bound does not apply; what must still hold: a loud refusal or raw = the rounded value clipped into the
+    on-disk type (no wrap-around), NaN -> 0, no undefined cast, the stored slope / inter are the caller's."""
+    d = case.data
+    if res.startswith('ERR:'):
+        return None if res in ('ERR:WriterError', 'ERR:HeaderDataError', 'ERR:HeaderTypeError', 'ERR:ValueError') else \
+            f'save with preset scaling raised {res}'
+    s, b, raws, warn = parse_ok(res)
+    if warn:
+        return 'NumPy RuntimeWarning "invalid value encountered in cast" while saving with preset scaling'
+    if s != Fr(d['sl']) or b != (Fr(d['it']) if d['it'] is not None else 0):
+        return f'preset scaling ({d["sl"]}, {d["it"]}) stored as ({s}, {b})'
+    vals = [parse_val(v, d['in']) for v in d['vals']]
+    omin, omax = irange(d['out'])
+    p = working_prec(d['in'])
+    bmn, bmx = shared(p, omin, omax)
+    for v, q in zip(vals, raws):
+        if not (omin <= q <= omax):
+            return f'raw {q} outside type range'
+        if d['in'] not in FPREC:
+            exp = min(max(int(v), omin), omax)
+            if q != exp:
+                return f'preset scaling: integer {v} -> {d["out"]} stored {q}, expected {exp} (wrap / wrong clip)'
+            continue
+        exp = 0 if v == 'nan' else bmx if v == 'inf' else bmn if v == '-inf' else min(max(rint_he(v), bmn), bmx)
+        if abs(q - exp) > 1 + int(4 * Fr(1, 2 ** p) * abs(exp)):
+            return f'preset scaling: value {v} -> {d["out"]} stored {q}, expected {exp} (wrap / wrong clip)'
+    return None
+
+
+def oracle_tfm(case, out):
+    """the property on a `to_file_map(dtype=…)` history: the observed (last) save must meet exactly the same bound as
+    a save whose on-disk type was put into the header — the way the type was chosen, the data type the header held
+    before, the image class variant, the save API, the byte order and earlier saves are irrelevant."""
+    d = case.data
+    res, _ = split_h(out)
+    if d.get('lvl') == 'dec':
+        full = (case.extra or {}).get('full') if isinstance(case.extra, dict) else None
+        res = full if full is not None else run_any(d, case)
+    if d['sl'] is not None or d['it'] is not None:
+        return oracle_preset(case, res)
+    shim = Case(None, dict(d, op='save'), None, d['stream'], case.extra)
+    return oracle_save(shim, res)
+
+
 def oracle(case, out):
     d = case.data
+    if d['op'] == 'tfm':
+        return oracle_tfm(case, out)
     if d['op'] == 'save':
         return oracle_save(case, out)
     if d['op'] == 'var':
@@ -711,8 +972,10 @@ def oracle(case, out):
 
 def signature(case, what):
     d = case.data
-    if d['op'] not in ('save', 'var'):
+    if d['op'] not in ('save', 'var', 'tfm'):
         return 'C02:' + d['op']
+    if d['op'] == 'tfm' and (d['sl'] is not None or d['it'] is not None):
+        return f'preset-scaling:{d["cls"]}'
     vals = [parse_val(s, d['in']) for s in d['vals']]
     wrote = 'raised an unexpected' not in what
     fin = [v for v in vals if isinstance(v, Fr)]
@@ -733,7 +996,7 @@ def signature(case, what):
 def _passes_with_input_rounding(case):
     """True when every element is within the bound of SOME integer within 2**-52 * |v| of the input value."""
     d = case.data
-    out = run_save(d, None)
+    out = run_any(d, None)
     if not out.startswith('ok ') or ' W:' in out:
         return False
     s, b, raws, _ = parse_ok(out)
@@ -757,7 +1020,7 @@ def shrink_candidates(case):
     """drop one value at a time, keeping only candidates that fail with the SAME signature (so that shrinking a new
     violation can never slide into the input of a known finding)"""
     d = case.data
-    if d['op'] not in ('save', 'a2f', 'var'):
+    if d['op'] not in ('save', 'a2f', 'var', 'tfm'):
         return
     try:
         sig0 = _failure_sig(case)
@@ -765,6 +1028,26 @@ def shrink_candidates(case):
         return
     vs = d['vals']
     cands = []
+    if d['op'] == 'tfm':
+        # simplify the configuration first: no history, in-memory save, plainest construction, native byte order
+        simp = []
+        if len(d['args']) > 1:
+            simp.append(dict(d, args=d['args'][-1:]))
+        if d.get('how', 'tfm') != 'tfm':
+            simp.append(dict(d, how='tfm', ext=None))
+        if d.get('bo', '<') != '<':
+            simp.append(dict(d, bo='<'))
+        if d.get('mk') in ('loaded', 'set', 'ctor'):
+            simp.append(dict(d, mk='fresh' if d['hd'] == d['in'] and d['in'] not in ('int64', 'uint64') else 'hdr'))
+        if d['kls'] != KLS[d['cls']][0]:
+            simp.append(dict(d, kls=KLS[d['cls']][0], ext=None))
+        for d2 in simp:
+            try:
+                c2 = case_from_data(dict(d2, exact=False))
+                if sig0 is None or _failure_sig(c2) == sig0:
+                    yield c2
+            except Exception:
+                continue
     if d.get('shape'):
         shp, k = list(d['shape']), None
         ax = 0 if d.get('order', 'C') == 'C' else len(shp) - 1
@@ -778,7 +1061,7 @@ def shrink_candidates(case):
     else:
         flat = d
     for d2 in cands:
-        if d['op'] in ('save', 'var'):
+        if d['op'] in ('save', 'var', 'tfm'):
             d2 = dict(d2, exact=False)
         c2 = case_from_data(d2)
         try:
@@ -791,7 +1074,7 @@ def shrink_candidates(case):
     if len(vs) > 1:
         for i in range(len(vs)):
             d2 = dict(d, vals=vs[:i] + vs[i + 1:])
-            if d['op'] in ('save', 'var'):
+            if d['op'] in ('save', 'var', 'tfm'):
                 d2['exact'] = False
             c2 = case_from_data(d2)
             try:
@@ -1295,6 +1578,67 @@ def gen_fr(rng, base):
     return out
 
 
+PRESETS = [(1, 0), (2, 0), (Fr(1, 2), 0), (-1, 0), (3, 10), (Fr(1, 4), Fr(-7, 2)), (1, 100), (256, -32768)]
+
+
+def tfm_variant(rng, c):
+    """Re-run the values / class / on-disk type of a save case through the OTHER ways of choosing the on-disk type and
+    of saving: the `dtype=` save argument (header holding the array dtype, or any other supported type, before the
+    override), image class variants (NIfTI-1/2, single / pair), construction routes (fresh image, header passed in,
+    constructor `dtype=`, `set_data_dtype`, image loaded from a file = array proxy), save APIs (to_file_map,
+    to_filename, nib.save incl. class conversion by extension, to_bytes, to_stream), big-endian headers, histories of
+    earlier saves on the same image, and caller-fixed scaling (slope / inter preset in the header)."""
+    d = c.data
+    cls = d['cls']
+    if cls == 'mgh' or d['op'] not in ('save', 'var'):
+        return None
+    in_name, out_name = d['in'], d['out']
+    kls = rng.choice(KLS[cls])
+    sup = supported_dtypes(kls)
+    if out_name not in sup:
+        return None
+    mode = rng.choice(['arg', 'arg', 'arg', 'arg', 'hdr', 'preset'])
+    sl = it = None
+    if mode == 'preset':
+        if cls == 'analyze':
+            mode = 'arg'
+        else:
+            sl, it = rng.choice(PRESETS)
+            it = Fr(it) if cls == 'nifti' else None
+            sl = Fr(sl)
+    if mode == 'hdr' or (mode == 'preset' and rng.random() < 0.4):
+        hd, last = out_name, None
+    else:
+        last = out_name
+        same_ok = in_name in sup
+        r = rng.random()
+        hd = in_name if (same_ok and r < 0.6) else out_name if r > 0.93 else rng.choice(sup)
+    args = [last]
+    if rng.random() < 0.3:
+        for _ in range(rng.choice([1, 1, 2])):
+            args.insert(0, rng.choice([None, None] + sup))
+    if hd == in_name and in_name not in ('int64', 'uint64'):
+        mk = rng.choice(['fresh', 'fresh', 'fresh', 'loaded', 'hdr', 'ctor'])
+    else:
+        # (the constructor puts the ARRAY dtype into the header before applying `dtype=`: needs a supported array dtype)
+        mk = rng.choice(['hdr', 'hdr', 'ctor', 'set'] if in_name in sup else ['hdr', 'hdr', 'set'])
+    hows = ['tfm', 'tfm', 'tfm', 'fn', 'nibsave']
+    if kls in SINGLE_FILE:
+        hows += ['bytes', 'stream']
+    if kls in ('Nifti1Image', 'Nifti1Pair') and mode != 'preset':     # (conversion makes a NEW image: presets are reset)
+        hows += ['conv']
+    how = rng.choice(hows)
+    ext = rng.choice(KLS_EXT[kls]) if how in ('fn', 'nibsave') else None
+    bo = '>' if (mk == 'hdr' and rng.random() < 0.3) else '<'
+    exact = bool(d.get('exact')) and mode != 'preset'
+    stream = 'tfm-preset' if mode == 'preset' else 'tfm-exact' if exact else 'tfm-general'
+    t = mk_tfm(cls, kls, in_name, hd, sl, it, args, d['vals'], stream, exact, how, mk, bo, ext, d.get('shape'),
+               d.get('order', 'C'))
+    if t.data['lvl'] == 'dec':
+        t.stream = t.data['stream'] = 'tfm-decisions'
+    return t
+
+
 def cases(rng, tier):
     n = {'quick': 1, 'thorough': 30, 'search': 4}[tier]
     out = []
@@ -1308,6 +1652,9 @@ def cases(rng, tier):
     # about half of the save cases are laid out as 3-D arrays with several memory slabs (C and F order)
     saves = [relayout(rng, c) if rng.random() < 0.5 else c for c in saves]
     out += saves
+    # the same inputs through the `dtype=` save argument / class variants / save APIs / histories / preset scaling
+    rng2 = __import__('random').Random(rng.random())     # own stream: the older streams keep their draws
+    out += [t for t in (tfm_variant(rng2, c) for c in saves if rng2.random() < 0.42) if t is not None]
     out += gen_fr(rng, [c for c in saves if rng.random() < 0.3])
     out += gen_a2f(rng, 600 * n)
     return out
@@ -1339,4 +1686,26 @@ def regen():
            'end Nb.C02.Gen\n')
     os.makedirs(os.path.join(LEAN, 'NibabelModel', 'Generated'), exist_ok=True)
     write_if_changed(os.path.join(LEAN, 'NibabelModel', 'Generated', 'C02Types.lean'), src)
+    # capability flags of every header class of the Analyze family, as the classes declare them NOW
+    import nibabel as nib
+    b = lambda x: 'true' if bool(x) else 'false'
+    crow = []
+    for cls, names in KLS.items():
+        for k in names:
+            hc = getattr(nib, k).header_class
+            crow.append((f'  (.{"spm" if cls == "spm2" else cls}, {b(hc.has_data_slope)}, {b(hc.has_data_intercept)})',
+                         f'{k} / {hc.__name__}'))
+    csrc = ('import NibabelModel.Model.C02\n'
+            '/-! GENERATED by harness/props/c02.py regen() from /repo on every run — do not edit.\n'
+            '    (model class, has_data_slope, has_data_intercept) of the header class of every image class that\n'
+            '    shares `AnalyzeImage.to_file_map`; rows in this order: ' + ', '.join(r[1] for r in crow) + '. -/\n'
+            'namespace Nb.C02.Gen\n\n'
+            'def capsTable : List (Cls × Bool × Bool) := [\n' + ',\n'.join(r[0] for r in crow) + ']\n\n'
+            '/-- the model\'s capability flags are the ones the source declares, and `make_array_writer` picks from them\n'
+            '    the writer class the model of `save` uses -/\n'
+            'theorem caps_table_ok :\n'
+            '    ∀ r ∈ capsTable, r.1.caps = ⟨r.2.1, r.2.2⟩ ∧ (makeWriter ⟨r.2.1, r.2.2⟩).toOption = some r.1.writer := by\n'
+            '  decide\n\n'
+            'end Nb.C02.Gen\n')
+    write_if_changed(os.path.join(LEAN, 'NibabelModel', 'Generated', 'C02Caps.lean'), csrc)
     return []     # the obligation over the generated table is audited as a THEOREM (Nb.C02.Gen.shared_table_ok)
